@@ -145,7 +145,7 @@ def rand_line(rng, times):
 class C12(Property):
     id = "C12"
     lean_module = "RosuModel.Props.C12Full"   # imports Props/C12Exact.lean (→ Props/C12.lean → Props/C13.lean) and Props/C12Ieee.lean; namespace Rosu.C12
-    theorem_modules = ['RosuModel.Props.C12Exact', 'RosuModel.Props.C12Ieee']   # files whose top-level theorems are all audited
+    theorem_modules = ['RosuModel.Props.C12Exact', 'RosuModel.Props.C12Ieee', 'RosuModel.Props.C12IeeeSorted']   # files whose top-level theorems are all audited
     namespace = "Rosu.C12"
     design_ref = "5.12"
     level_text = (
